@@ -1217,13 +1217,13 @@ theorem chunkClose_noappend (st : St) (h : st.sendChunked = true → st.dc.isSom
 
 
 theorem backendDone_truncated_unsent (cfg : Cfg) (st : St) (hc : st.cstate = .handle) (hs : st.started = true)
-    (hf : st.finished = false) (hsent : st.hdrSent = false) (ht : bodyTruncated st = true) :
+    (hf : st.finished = false) (hsent : st.hdrSent = false) (ht : bodyTruncated cfg st = true) :
     backendDone cfg st = backendIncomplete st := by
   unfold backendDone
   rw [if_neg (by simp [hc]), if_neg (by simp [hs]), if_pos (by simp [hf]), if_pos (by simp [ht, hsent])]
 
 theorem backendDone_truncated_sent (cfg : Cfg) (st : St) (hc : st.cstate = .write)
-    (hf : st.finished = false) (hsent : st.hdrSent = true) (ht : bodyTruncated st = true) :
+    (hf : st.finished = false) (hsent : st.hdrSent = true) (ht : bodyTruncated cfg st = true) :
     backendDone cfg st =
       { (if cfg.ver = 1 then chunkClose (backendAbort cfg st) else backendAbort cfg st) with finished := true } := by
   unfold backendDone
